@@ -91,12 +91,16 @@ class Report:
         self.vacuity = {'feasible_paths': 0, 'mustfail_guards_refuted': 0}
 
     # ---- intake
-    def add_fragment_results(self, results, clause_filter=None):
+    def add_fragment_results(self, results, clause_filter=None, unit_filter=None):
         for r in results:
             unit = r['unit']
             if r.get('crash'):
                 self.errors.append((unit, 'crash', r['crash'][-600:]))
                 continue
+            if unit_filter is not None:
+                # dependency layer: obligations that are a recorded finding of SOME property are reported under that property, not here
+                r = dict(r, verdicts=[v for v in r['verdicts'] if unit_filter(unit, v['obligation'], v.get('path'))],
+                         ground=[g for g in r.get('ground', []) if unit_filter(unit, g[0], None)])
             self.units[unit] = {'vcs': len(r['verdicts']), 'paths': r.get('paths', 0), 'wall': r.get('wall', 0)}
             self.child_access.update(tuple(a) for a in r.get('child_access', []))
             cc = (r.get('stats') or {}).get('cpython_crosscheck')
@@ -265,6 +269,21 @@ def load_known(prop):
     with open(p) as f:
         data = json.load(f)
     return [k for k in data.get('findings', []) if k['property'] == prop]
+
+
+def matches_any_known(unit, name, path):
+    """is (unit, obligation, path) a recorded finding of ANY property?"""
+    p = os.path.join(paths.VERIF, 'known_findings.json')
+    if not os.path.exists(p):
+        return False
+    global _ALL_KNOWN
+    try:
+        _ALL_KNOWN
+    except NameError:
+        with open(p) as f:
+            _ALL_KNOWN = json.load(f).get('findings', [])
+    o = type('O', (), {'unit': unit, 'name': name, 'path': path})()
+    return match_known(_ALL_KNOWN, o) is not None
 
 
 def match_known(known, o):
